@@ -245,8 +245,56 @@ pub fn stun_req_classic() -> impl Strategy<Value = StunReq> {
     (any::<[u8; 16]>(), prop::option::of(stun_change_request())).prop_map(|(id, cr)| StunReq { mtype: 1, magic: false, id, attrs: cr.into_iter().collect() })
 }
 
+/// magic-cookie request whose attribute bytes exceed 255 (so that the message length's high
+/// byte is non-zero and the request is outside the matcher's known shadowing divergence)
+pub fn stun_req_magic_big() -> impl Strategy<Value = StunReq> {
+    (stun_req_magic(), 64usize..=120, any::<u8>(), any::<u16>()).prop_map(|(mut r, words, fill, pos)| {
+        let p = pick(pos, r.attrs.len() + 1);
+        r.attrs.insert(p, StunAttr { typ: 0x8022, value: Hex(vec![fill; words * 4]) });
+        r
+    })
+}
+
 pub fn stun_req() -> impl Strategy<Value = StunReq> {
-    prop_oneof![3 => stun_req_magic(), 2 => stun_req_classic()]
+    prop_oneof![2 => stun_req_magic(), 2 => stun_req_magic_big(), 2 => stun_req_classic()]
+}
+
+/// RFC 5389 request whose attribute values have lengths that are not multiples of 4 (each value
+/// is followed by padding up to the next 32-bit boundary, as the RFC prescribes)
+#[derive(Clone, Debug, Serialize, Deserialize, PartialEq, Hash)]
+pub struct StunPadded {
+    pub id: [u8; 16],
+    pub attrs: Vec<StunAttr>,
+}
+
+impl StunPadded {
+    pub fn bytes(&self) -> Vec<u8> {
+        let mut ab = Vec::new();
+        for a in &self.attrs {
+            ab.extend_from_slice(&a.typ.to_be_bytes());
+            ab.extend_from_slice(&(a.value.len() as u16).to_be_bytes());
+            ab.extend_from_slice(&a.value);
+            while ab.len() % 4 != 0 {
+                ab.push(0);
+            }
+        }
+        let mut v = vec![0x00, 0x01];
+        v.extend_from_slice(&(ab.len() as u16).to_be_bytes());
+        let mut id = self.id;
+        id[0..4].copy_from_slice(&[0x21, 0x12, 0xa4, 0x42]);
+        v.extend_from_slice(&id);
+        v.extend_from_slice(&ab);
+        v
+    }
+}
+
+pub fn stun_padded() -> impl Strategy<Value = StunPadded> {
+    (any::<[u8; 16]>(), vec((prop::sample::select(vec![0x0006u16, 0x8022, 0x0014, 0x0015, 0xc001]), vec(any::<u8>(), 1..200)), 1..4), any::<u8>()).prop_map(|(id, at, fill)| {
+        let mut attrs: Vec<StunAttr> = at.into_iter().map(|(typ, value)| StunAttr { typ, value: Hex(value) }).collect();
+        // make sure the message is longer than 255 bytes (outside the shadowing divergence)
+        attrs.push(StunAttr { typ: 0x8022, value: Hex(vec![fill; 257]) });
+        StunPadded { id, attrs }
+    })
 }
 
 // ---------------------------------------------------------------------------------------
